@@ -345,6 +345,13 @@ func ruleTreeKey(c *Ctx) []Obligation {
 						}
 					}
 					nSites++
+					// the idioms accepted for a direct link hold for a link made through an inserting helper too
+					if sameNext(k, v) {
+						continue // key and value come from the same map iteration (a copy keeps its key)
+					}
+					if _, kf0, kbase0 := loadedField(k); kf0 == m.fName && sameObject(kbase0, v) {
+						continue // key is value.Name
+					}
 					_, kf, kbase := loadedField(k)
 					call := entryFromCall(v, toEntry)
 					if kf == nil || kf.Name() != "Name" || call == nil {
@@ -365,7 +372,7 @@ func ruleTreeKey(c *Ctx) []Obligation {
 			}
 			visit(l.fn, paramIndex(l.fn, kp), paramIndex(l.fn, vp), 0)
 			if okAll && nSites > 0 {
-				obs = append(obs, ok(R, con, pos, fmt.Sprintf("all %d call sites pass (x.Name, ToEntry(x)) for the same x", nSites)))
+				obs = append(obs, ok(R, con, pos, fmt.Sprintf("all %d call sites pass (x.Name, ToEntry(x)) for the same x, a key/value pair of one map iteration, or (v.Name, v)", nSites)))
 			} else {
 				obs = append(obs, bad(R, con, pos, "a call site passes a key that is not the Name of the node being converted: "+badSite))
 			}
@@ -1149,14 +1156,15 @@ func ruleDupComplete(c *Ctx) []Obligation {
 	for _, f := range afields {
 		con := fmt.Sprintf("%s gives the copy its own Entry.%s array or clips it (appended to elsewhere)", c.FnName(deep), f.Name())
 		okc, how := false, ""
-		eachInstr(deep, func(in ssa.Instruction) {
+		c.eachInstrDeep(deep, func(in ssa.Instruction) {
 			var val ssa.Value
 			switch x := in.(type) {
 			case *ssa.Store:
 				if _, ff, _ := fieldOf(x.Addr); ff != f {
 					return
 				}
-				if _, isAlloc := rootOf(x.Addr).(*ssa.Alloc); !isAlloc {
+				// the copy under construction, possibly handed to a private helper (ne.clipSlices())
+				if _, isAlloc := resolveArg(rootOf(x.Addr)).(*ssa.Alloc); !isAlloc {
 					return
 				}
 				val = x.Val
